@@ -258,7 +258,8 @@ func c04Stream(cx *Ctx, N int) {
 			fillCD(&c.ClaimsData)
 			c.Permissions = genPerm()
 			if rb() {
-				c.Limits = v1.Limits{Max: ri(), Payload: ri(), Src: []string{"", "1.2.3.4/8", " 1.2.3.4/8 , FE80::/10,,1.2.3.4/8", "a,b"}[rng.Intn(4)]}
+				c.Limits = v1.Limits{Max: ri(), Payload: ri(), Src: []string{"", "1.2.3.4/8", " 1.2.3.4/8 , FE80::/10,,1.2.3.4/8", "a,b",
+					"192.0.2.0/24,10.0.0.0/8,192.0.2.0/24,198.51.100.0/24,203.0.113.0/24", "10.0.0.0/8,,172.16.0.0/12", " A , a ,b,B,c", ",x", "x,"}[rng.Intn(9)]}
 				if someB() {
 					c.Limits.Times = []v1.TimeRange{{Start: rs(), End: rs()}}
 				}
